@@ -156,26 +156,48 @@ def map_run(nlat, nlon):
     return run
 
 
-def month_run(month):
+class _HDUList(list):
+    """astropy HDUList stand-in (indexing, context manager, close)"""
+
+    def __enter__(self):
+        return self
+
+    def __exit__(self, *a):
+        return False
+
+    def close(self):
+        pass
+
+
+def months_run():
+    """All twelve months through ONE loaded module, forwards and then backwards (a month must get its own
+    map whatever was requested before)."""
+
     def run(C):
-        rec = {}
+        rec = []
 
         class FitsStub:
             @staticmethod
             def open(file, *a, **k):
-                rec["file"] = str(file)
-                return [type("HDU", (), {"data": _np.arange(6.0).reshape(2, 3)})()]
+                rec.append(str(file))
+                mth = int(os.path.basename(str(file)).split("_")[-1].split(".")[0])
+                return _HDUList([type("HDU", (), {"data": _np.full((2, 3), float(mth))})()])
 
         ns = load.load("nuspacesim.simulation.atmosphere.clouds", {"fits": FitsStub})
         Sim = ns["Simulation"]
-        model = Sim.PressureMapCloud(month=month)
-        ns["CloudTopHeight"](type("Cfg", (), {"simulation": type("S", (), {"cloud_model": model})()})())
-        want = f"nss_map_CloudTopPressure_{month:02d}.v0.fits"
-        path = os.path.join(load.REPO_SRC, "nuspacesim", "data", "cloud_maps", want)
-        return harness.Out(claims={
-            f"month {month}: the map file opened is {want}": z3.BoolVal(os.path.basename(rec.get("file", "")) == want),
-            f"month {month}: that file is shipped": z3.BoolVal(os.path.exists(path)),
-        })
+        claims = {}
+        for rnd, order in (("first pass", range(1, 13)), ("second pass (reverse order)", range(12, 0, -1))):
+            for month in order:
+                n0 = len(rec)
+                cth = ns["CloudTopHeight"](type("Cfg", (), {"simulation": type("S", (), {"cloud_model": Sim.PressureMapCloud(month=month)})()})())
+                want = f"nss_map_CloudTopPressure_{month:02d}.v0.fits"
+                path = os.path.join(load.REPO_SRC, "nuspacesim", "data", "cloud_maps", want)
+                got_map = SymArray(cth.map) if not isinstance(cth.map, SymArray) else cth.map
+                claims[f"{rnd}, month {month}: the model holds month {month}'s own map (file {want})"] = z3.BoolVal(
+                    all(float(SV.of(e).c) == float(month) for e in got_map.a.reshape(-1)) and (len(rec) == n0 or os.path.basename(rec[-1]) == want))
+                if rnd == "first pass":
+                    claims[f"month {month}: that file is shipped"] = z3.BoolVal(os.path.exists(path))
+        return harness.Out(claims=claims)
 
     return run
 
@@ -193,16 +215,7 @@ def job_map(nlat, nlon, tier):
 
 
 def job_months(tier):
-    def f():
-        vs = []
-        for mth in range(1, 13):
-            r = harness.run_job(f"month {mth}", month_run(mth), timeout_ms=10000, twin=False)
-            if r.get("error"):
-                raise core.HarnessError(r["error"])
-            vs += r["verdicts"]
-        return {"verdicts": vs, "paths": 12}
-
-    return harness.plain_job("pressure-map file name for months 1..12", f)
+    return harness.run_job("pressure-map file for months 1..12, twice through one module", months_run(), timeout_ms=10000, twin=False)
 
 
 def jobs(tier, seed):
